@@ -3,12 +3,13 @@ Require Extraction.
 Require Import ExtrOcamlBasic.
 
 (* wire format of error objects: (id msg fname kind ctx)
-   fname: () | (0 str) | (1)          kind: (0) | (1 etype lineno?) | (2 lineno?)
+   fname: () | (0 str) | (1) | (2 bytes)          kind: (0) | (1 etype lineno?) | (2 lineno?)
    ctx: (0) | (1 text lineno? pos) | (2 text start? pos) | (3 line?) *)
 Definition d_fname (s : sexp) : fname :=
   match d_items s with
   | [] => FnNone
-  | t :: rest => if Z.eqb (d_Z t) 0 then FnStr (d_str (nth 0 rest (L []))) else FnBad
+  | t :: rest => if Z.eqb (d_Z t) 0 then FnStr (d_str (nth 0 rest (L [])))
+                 else if Z.eqb (d_Z t) 2 then FnBytes (d_str (nth 0 rest (L []))) else FnBad
   end.
 Definition d_kind (s : sexp) : skind :=
   match d_Z (d_nth s 0) with
@@ -27,7 +28,7 @@ Definition d_err (s : sexp) : err :=
   mkErr (d_N (d_nth s 0)) (d_str (d_nth s 1)) (d_fname (d_nth s 2)) (d_kind (d_nth s 3)) (d_ctx (d_nth s 4)).
 
 Definition enc_fname (f : fname) : sexp :=
-  match f with FnNone => L [] | FnStr s => L [A 0%Z; e_str s] | FnBad => L [A 1%Z] end.
+  match f with FnNone => L [] | FnStr s => L [A 0%Z; e_str s] | FnBytes b => L [A 2%Z; e_str b] | FnBad => L [A 1%Z] end.
 Definition enc_kind (k : skind) : sexp :=
   match k with
   | SPlain => L [A 0%Z]
@@ -76,10 +77,12 @@ Definition e_outcome (o : outcome) : sexp :=
   match o with Returned => L [A 0%Z] | Raised e => L [A 1%Z; e_N (e_id e)] | Crashed => L [A 2%Z] end.
 
 (* scanner state: (text filename? lineno pos)   aux context: (filename? lineno? line?) *)
+Definition d_pfname (s : sexp) : pfname :=
+  match d_fname s with FnStr x => PStr x | FnBytes b => PBytes b | _ => PNone end.
 Definition d_scanner (s : sexp) : scanner :=
-  mkScanner (d_str (d_nth s 0)) (d_opt d_str (d_nth s 1)) (d_Z (d_nth s 2)) (d_Z (d_nth s 3)).
+  mkScanner (d_str (d_nth s 0)) (d_pfname (d_nth s 1)) (d_Z (d_nth s 2)) (d_Z (d_nth s 3)).
 Definition d_auxctx (s : sexp) : auxctx :=
-  mkAuxctx (d_opt d_str (d_nth s 0)) (d_opt d_Z (d_nth s 1)) (d_opt d_str (d_nth s 2)).
+  mkAuxctx (d_pfname (d_nth s 0)) (d_opt d_Z (d_nth s 1)) (d_opt d_str (d_nth s 2)).
 (* constructor calls: (0 msg fname) (1 etype msg sc) (2 sc) (3 desc sc) (4 desc sc start?) (5 msg auxctx) *)
 Definition d_construct (s : sexp) : err :=
   match d_Z (d_nth s 0) with
